@@ -5,6 +5,7 @@ discharged for them: ScalingOperator, IdentityOperator, PowerOperator, the harne
 ShiftPower, MatrixOperator (any shape, any entries), ConstantFunctional, ZeroFunctional.
 -/
 import OdlModel.Model.OpAlgebra
+import OdlModel.Model.CRat
 
 namespace OdlModel.OpAlgebra
 
@@ -62,5 +63,88 @@ def ZooExpr [DecidableEq K] (specs : Nat → LeafSpec K) : Expr K → Prop
   | .vc _ a _ => ZooExpr specs a
 
 end
+
+/-! ### Round 4: the remaining executable leaves of the pool (inner / linf / l2sq / repart /
+impart / scalef / powf).  They use the complex structure of the scalars (conjugation, real and
+imaginary part embedded in `K`); the driver instantiates it with the Gaussian rationals'
+own `conj`, `re`, `im`, the theorems are for ANY three maps with the stated laws. -/
+
+/-- conjugation and the real / imaginary part (as elements of `K` again) -/
+structure CStruct (K : Type) where
+  conj : K → K
+  re : K → K
+  im : K → K
+
+section
+variable {K : Type} [Add K] [Mul K] [OfNat K 0] [OfNat K 1]
+
+/-- `Σ_k x[k0 + k] * conj(y[k])` (`x.inner(y)` of `rn`/`cn`: linear in `x`) -/
+def dotConj (cj : K → K) (x : Vec K) : List K → Nat → K
+  | [], _ => 0
+  | c :: cs, k => x k * cj c + dotConj cj x cs (k + 1)
+
+/-- `Σ_{k<n} x[k] * conj(x[k])` -/
+def sqSum (cj : K → K) (x : Vec K) : Nat → K
+  | 0 => 0
+  | n + 1 => sqSum cj x n + x n * cj (x n)
+
+inductive LeafSpecC (K : Type)
+  | base (s : LeafSpec K)
+  | inner (n : Nat) (y : List K) (fn : Bool)  -- InnerProductOperator(y) / a linear Functional x ↦ <x, y>
+  | l2sq (n : Nat)                            -- L2NormSquared(space of size n)
+  | repart (n : Nat)                          -- ComplexEmbedding ∘ RealPart on cn(n)
+  | impart (n : Nat)                          -- ComplexEmbedding ∘ ImagPart on cn(n)
+  | scalef (c : K)                            -- ScalingOperator(field, c)
+  | powf (p : Nat)                            -- PowerOperator(field, p)
+
+def LeafSpecC.map (cs : CStruct K) : LeafSpecC K → Vec K → Vec K
+  | .base s => s.map
+  | .inner _ y _ => fun x _ => dotConj cs.conj x y 0
+  | .l2sq n => fun x _ => sqSum cs.conj x n
+  | .repart n => fun x j => if j < n then cs.re (x j) else 0
+  | .impart n => fun x j => if j < n then cs.im (x j) else 0
+  | .scalef c => fun x _ => c * x 0
+  | .powf p => fun x _ => powK (x 0) p
+
+def LeafSpecC.info [DecidableEq K] (id : Nat) : LeafSpecC K → Leaf
+  | .base s => s.info id
+  | .inner n _ fn => ⟨id, .vec n, .fld, true, fn⟩
+  | .l2sq n => ⟨id, .vec n, .fld, false, true⟩
+  | .repart n => ⟨id, .vec n, .vec n, true, false⟩
+  | .impart n => ⟨id, .vec n, .vec n, true, false⟩
+  | .scalef _ => ⟨id, .fld, .fld, true, false⟩
+  | .powf p => ⟨id, .fld, .fld, decide (p = 1), false⟩
+
+/-- linearity class of a leaf map: `all` = homogeneous for every scalar of the field,
+`realOnly` = only for the scalars that commute with `re`/`im` (the real ones), `none` = not
+claimed linear. -/
+inductive LinClass | all | realOnly | none
+  deriving DecidableEq, Repr
+
+def LeafSpecC.cls [DecidableEq K] : LeafSpecC K → LinClass
+  | .base s => if (s.info 0).lin then .all else .none
+  | .inner _ _ _ => .all
+  | .l2sq _ => .none
+  | .repart _ => .realOnly
+  | .impart _ => .realOnly
+  | .scalef _ => .all
+  | .powf p => if p = 1 then .all else .none
+
+def zooEnvC (cs : CStruct K) (specs : Nat → LeafSpecC K) : Nat → Vec K → Vec K :=
+  fun id => (specs id).map cs
+
+/-- every leaf of the expression carries the flags of its spec -/
+def ZooExprC [DecidableEq K] (specs : Nat → LeafSpecC K) : Expr K → Prop
+  | .leaf i => i = (specs i.id).info i.id
+  | .neg a => ZooExprC specs a
+  | .pow a _ => ZooExprC specs a
+  | .bin _ a b => ZooExprC specs a ∧ ZooExprC specs b
+  | .sc _ a _ _ => ZooExprC specs a
+  | .vc _ a _ => ZooExprC specs a
+
+end
+
+/-- the complex structure of the Gaussian rationals the driver computes with -/
+def cratStruct : CStruct CRat := ⟨CRat.conj, fun z => ⟨z.re, 0⟩, fun z => ⟨z.im, 0⟩⟩
 
 end OdlModel.OpAlgebra
